@@ -14,7 +14,7 @@ import (
 func init() {
 	register("R2", "kind/constructor agreement: in toProto every value returned in the arm for protobuf kind K is built by the protoreflect.ValueOf* constructor of K's Go representation (a mismatch makes the protobuf runtime panic in Set), toStarlark1 reads it with the matching accessor, and both cover all 18 kinds", 30, ruleR2)
 	register("R3", "proto storage mutators are guarded: every Set/Clear/Mutable/Append/Truncate on a message, list or map handle is on a handle created in the same function, or is dominated by the frozen test (checkMutable or *w.frozen) of the wrapper the handle was read from, or sits in setField/setFields whose callers all satisfy this", 8, ruleR3)
-	register("R1", "proto storage never crosses frozen-groups: a message/list/map handle read from an existing wrapper (or delivered by Range/Get on one) is never re-wrapped with ValueOfMessage/ValueOfList/ValueOfMap or stored into another message, so two wrappers with different frozen flags never share storage", 3, ruleR1)
+	register("R1", "proto storage never crosses frozen-groups: a message/list/map handle read from an existing wrapper (or delivered by Range/Get on one) is never re-wrapped with ValueOfMessage/ValueOfList/ValueOfMap or stored into another message, so two wrappers with different frozen flags never share storage", 2, ruleR1)
 }
 
 const protoPkg = "lib/proto"
